@@ -315,6 +315,7 @@ def install_formatter(S: Seams, fmt):
         # the input is encoded and the output decoded with the given encoding or else with the *locale* encoding, which is an environment seam
         # of the session (fmt["locale"], default utf-8), and line ends of the output are translated to "\n"
         locale_enc = fmt.get("locale") or "utf-8"
+        partial_calls = set(fmt.get("exit1_partial_at") or [])
 
         class FakeSp:
             PIPE, STDOUT, DEVNULL = -1, -2, -3
@@ -352,6 +353,13 @@ def install_formatter(S: Seams, fmt):
                     text = raw_in.decode("utf-8")  # the formatter reads its standard input as UTF-8 source, like black does
                 except UnicodeDecodeError as e:
                     return result(123, b"", f"error: cannot format -: {e}\n".encode())
+                if act == "fmt_exit1_partial" or k in partial_calls:
+                    # the formatter gives up with a non-zero exit status after it has written a part of its answer that happens to be valid
+                    # Python (a streaming formatter that meets syntax it does not know; `Terminated` printed by a wrapper script)
+                    S.fired_extra = getattr(S, "fired_extra", 0) + 1
+                    cut = text.rfind("\n\ndef ", 0, max(len(text) * 2 // 3, 1))
+                    partial = text[: cut + 1] if cut > 0 else "Terminated\n"
+                    return result(1, partial.encode("utf-8"), b"error: cannot format -: giving up\n")
                 if act == "fmt_killed":
                     # the formatter is killed by a signal (negative return code) after it flushed a part of its output that happens to
                     # end at a statement boundary: the flushed text parses, but it is not the answer
@@ -362,6 +370,20 @@ def install_formatter(S: Seams, fmt):
                     out = stub_format(stub, mode, text)
                 except Exception as e:
                     return result(123, b"", f"error: cannot format -: {e}\n".encode())
+                if act == "fmt_nonutf8":
+                    # the formatter writes its answer in a legacy 8-bit encoding (a windows code page on the pipe): for text with non-ASCII
+                    # characters the bytes are not UTF-8 - garbage output with exit status 0
+                    # (fair fault: only when the bytes really are not UTF-8; an answer that cannot be written in that code page, or whose bytes
+                    #  happen to be valid UTF-8, would be indistinguishable from a legitimate answer or is a plain failure of the command)
+                    try:
+                        raw = out.encode("cp1252")
+                    except UnicodeEncodeError as e:
+                        return result(1, b"", f"UnicodeEncodeError: {e}\n".encode())
+                    try:
+                        raw.decode("utf-8")
+                    except UnicodeDecodeError:
+                        return result(0, raw)
+                    return result(0, out.encode("utf-8"))
                 return result(0, out.encode("utf-8"))
 
         F.sp = FakeSp
